@@ -419,6 +419,9 @@ var agreeOffers = [][]httphead.Option{
 	{optp("foo", "a", "1", "b", "2"), optp("bar", "c", "")},
 	{optp("foo"), optp("bar"), optp("baz", "k", "v")},
 	{optp("foo", "q", "needs quoting"), optp("bar", "e", "a\"b")}, // values that are not tokens: correspondence only
+	// names and parameter lists of different lengths, several of them acceptable to one selector
+	{optp("permessage-deflate", "client_max_window_bits", "10"), optp("foo", "a", "1", "b", "2"), optp("x-webkit-deflate-frame")},
+	{optp("bar", "c", ""), optp("x-webkit-deflate-frame", "no_context_takeover", ""), optp("baz", "k", "v"), optp("foo")},
 }
 
 func agreeServerExt(c *ctx, k int) (ext *[]string, neg *[]negEntry) {
@@ -434,6 +437,8 @@ func agreeServerExt(c *ctx, k int) (ext *[]string, neg *[]negEntry) {
 		t := []negEntry{{name: "permessage-deflate", action: 'a', opt: optp("permessage-deflate", "server_max_window_bits", "12")},
 			{name: "baz", action: 'a', opt: optp("baz", "k", "other")}, {name: "foo", action: 'e'}}
 		return nil, &t
+	case 6:
+		return &[]string{"permessage-deflate", "x-webkit-deflate-frame", "foo", "baz"}, nil
 	case 5:
 		t := []negEntry{{name: "bar", action: 'r', rej: rejSamples[c.rng.Intn(len(rejSamples)-1)]}, {name: "foo", action: 'e'}}
 		return nil, &t
@@ -448,7 +453,7 @@ func runC11(c *ctx) {
 	for _, ps := range agreeProtocols {
 		for _, sel := range agreeSelectors {
 			for oi, offer := range agreeOffers {
-				for k := 0; k < 6; k++ {
+				for k := 0; k < 7; k++ {
 					if !c.thor && (oi+k)%2 == 1 && len(ps) > 1 {
 						continue
 					}
